@@ -148,6 +148,22 @@ Definition matches (pat : pattern) (rel : path) : bool :=
   | _, _ => false
   end.
 
+(* The caller's pattern string is pasted after the (escaped) directory and handed to glob::glob, which INTERPRETS it.
+   The family above is modelled only for arguments that glob reads literally and that stay inside one path component:
+   no '*' '?' '[' (the metacharacters of glob 0.3: Pattern::new), no '/' (the component separator), and - excluded as well,
+   although glob 0.3.4 on Unix treats them as ordinary characters - no ']' '{' '}' '\' (metacharacters of other glob dialects,
+   '\' a separator on Windows).  The <name> of "<name>/*" must moreover be a plain component (not "", "." or "..").
+   With any other argument [fs_list] answers [EUnmodelled] (e.g. "*.[t]" selects "b.t" in the code; the literal reading
+   would select "c.[t]": review r4, C13-1). *)
+Definition glob_special : list N := [42; 63; 91; 93; 123; 125; 92; 47].    (* * ? [ ] { } \ / *)
+Definition plain_pattern_arg (s : str) : bool := forallb (fun c => negb (existsb (N.eqb c) glob_special)) s.
+Definition wf_pattern (pat : pattern) : bool :=
+  match pat with
+  | PAll | PStar => true
+  | PExt e | PRecExt e => plain_pattern_arg e
+  | PSub n => andb (plain n) (plain_pattern_arg n)
+  end.
+
 Definition under (pat : pattern) (d q : path) : bool :=
   match strip_prefix d q with Some rel => matches pat rel | None => false end.
 
@@ -264,6 +280,7 @@ Definition fs_actual (S : fsys) (p : str) (loc : bool) : fres str :=
     match localize (c_loc (conf S)) (lng S) p with
     | LOk s => FOk s
     | LErr e => FErr (ELocalization e)
+    | LPanic => FPanic PUnwrap       (* to_str().unwrap() in localization.rs; never happens on a str (C14_no_panic) *)
     | LUnmodelled => FErr EUnmodelled
     end
   else FOk p.
@@ -296,7 +313,9 @@ Definition fs_resolve (S : fsys) (p : str) (loc : bool) : fres (option (nat * st
 
 Definition fs_list (S : fsys) (d : str) (pat : pattern) (loc : bool) : fres (list str) :=
   fbind (fs_addr S d loc) (fun sa =>
-  FOk (sort_dedup (map render_path (flat_map (fun L => l_list L (snd sa) pat) (layers S))))).
+  if wf_pattern pat
+  then FOk (sort_dedup (map render_path (flat_map (fun L => l_list L (snd sa) pat) (layers S))))
+  else FErr EUnmodelled).
 Definition fs_subdirectories (S : fsys) (d : str) (loc : bool) : fres (list str) :=
   fbind (fs_addr S d loc) (fun sa =>
   FOk (sort_dedup (map render_path (flat_map (fun L => l_subdirs L (snd sa)) (layers S))))).
